@@ -4,6 +4,7 @@
   against protocol/sub, protocol/pub, protocol/xpub by the correspondence harness).
 -/
 import Model.Proto.SubLemmas
+import Model.Proto.SubOrder
 import Model.Proto.Pub
 namespace Props.C06
 open Model Model.Proto
@@ -94,6 +95,16 @@ theorem pub_pipe_independent (ps : List OutPipe) (m : Msg) :
 theorem pub_queue_room (p : OutPipe) (m : Msg) (x : Msg) (hi : p.inflight = some x) (hroom : p.q.length < p.cap) :
     (p.offer m).1.q = p.q ++ [m] ∧ (p.offer m).2.2 = true := by
   simp [OutPipe.offer, hi, hroom]
+
+/-- **at most once and in order**, in every reachable state — any history of publications, subscribe / unsubscribe,
+    receives (blocked or not), queue re-creations, contexts opened and closed: for every context, what its Recvs have
+    returned (`got`) followed by what is queued for it is, in order, part of the matching messages offered to it
+    (`seen`), which are, in order, part of the messages that reached the socket (`arrived`).  So no message is
+    returned twice, none out of arrival order, none that did not arrive (ghost lists; `offer_logs_what_it_hands` ties
+    `got` to the emitted "Recv returned" events) -/
+theorem recv_in_order_at_most_once (s : Sub.State) (hr : Sub.Reach s) :
+    ∀ c ∈ s.ctxs, (c.got ++ c.q).Sublist c.seen ∧ c.seen.Sublist s.arrived :=
+  Sub.recv_in_order_at_most_once s hr
 
 /-- non-vacuity -/
 example : ({ id := 0, subs := [[1]], q := [[1, 2]], cap := 2, parked := [], closed := false } : Sub.Ctx).Inv := by
